@@ -45,4 +45,50 @@ theorem integral_B_eq_intF (s : Side) (τ : ℕ → ℝ) (hτ : Monotone τ) (μ
     intF_eq_eval .left τ hτ μ q N i hN b ⟨lt_of_le_of_lt ha hab, hb⟩,
     intF_eq_eval .right τ hτ μ q N i hN a ⟨ha, lt_of_lt_of_le hab hb⟩]
 
+/-- On one knot span `B · τ q i` is interval integrable (it is a polynomial there). -/
+theorem intervalIntegrable_B_span (s : Side) (τ : ℕ → ℝ) (hτ : Monotone τ) (μ q i : ℕ) (a b : ℝ)
+    (ha : τ μ ≤ a) (hab : a ≤ b) (hb : b ≤ τ (μ+1)) :
+    IntervalIntegrable (fun x => B s τ q i x) volume a b := by
+  rw [intervalIntegrable_iff_integrableOn_Ioo_of_le hab]
+  have hp : IntegrableOn (fun x => (Bpoly τ μ q i).eval x) (Set.Ioo a b) volume :=
+    ((Bpoly τ μ q i).continuous.integrableOn_Icc (a := a) (b := b)).mono_set
+      Set.Ioo_subset_Icc_self
+  refine hp.congr_fun ?_ measurableSet_Ioo
+  intro x hx
+  refine (B_eq_eval_Bpoly s τ hτ μ q i x ?_).symm
+  cases s
+  · exact ⟨le_trans ha hx.1.le, lt_of_lt_of_le hx.2 hb⟩
+  · exact ⟨lt_of_le_of_lt ha hx.1, le_trans hx.2.le hb⟩
+
+/-- **Fundamental theorem of calculus for `integrate`, any number of spans.**  `a` lies in the
+span `μ0` (`τ μ0 ≤ a < τ (μ0+1)`), `b > a` anywhere up to `τ (μ0+k+1)`, and every point strictly
+between `a` and `b` occurs at most `q+1` times among the knots (true for every interior knot of
+the extended vector of a basis of order `q+1`).  Then `B · τ q i` is integrable on `[a,b]` and
+`∫_a^b B_{i,q} = intF(b⁻) − intF(a⁺)`. -/
+theorem integral_B_eq_intF_multi (s : Side) (τ : ℕ → ℝ) (hτ : Monotone τ) (q N i μ0 : ℕ) (a : ℝ)
+    (ha : τ μ0 ≤ a) (ha' : a < τ (μ0+1)) (k : ℕ) (hN : μ0 + k < N) (b : ℝ) (hab : a < b)
+    (hb : b ≤ τ (μ0+k+1))
+    (hm : ∀ ξ, a < ξ → ξ < b → ∀ j, τ j = ξ → τ (j+(q+1)) ≠ ξ) :
+    IntervalIntegrable (fun x => B s τ q i x) volume a b ∧
+      ∫ x in a..b, B s τ q i x = intF .left τ q N i b - intF .right τ q N i a := by
+  induction k generalizing b with
+  | zero =>
+    exact ⟨intervalIntegrable_B_span s τ hτ μ0 q i a b ha hab.le hb,
+      integral_B_eq_intF s τ hτ μ0 q N i hN a b ha hab hb⟩
+  | succ k ih =>
+    by_cases hbk : b ≤ τ (μ0+k+1)
+    · exact ih (by omega) b hab hbk hm
+    · have hξb : τ (μ0+k+1) < b := lt_of_not_ge hbk
+      have haξ : a < τ (μ0+k+1) := lt_of_lt_of_le ha' (hτ (by omega))
+      obtain ⟨I1, E1⟩ := ih (by omega) (τ (μ0+k+1)) haξ le_rfl
+        (fun ξ h1 h2 => hm ξ h1 (lt_trans h2 hξb))
+      have e : μ0 + (k+1) + 1 = μ0 + k + 1 + 1 := by omega
+      rw [e] at hb
+      have I2 := intervalIntegrable_B_span s τ hτ (μ0+k+1) q i (τ (μ0+k+1)) b le_rfl hξb.le hb
+      have E2 := integral_B_eq_intF s τ hτ (μ0+k+1) q N i (by omega) (τ (μ0+k+1)) b le_rfl hξb hb
+      have hc := intF_left_eq_right τ hτ (τ (μ0+k+1)) q N i (hm _ haξ hξb)
+      refine ⟨I1.trans I2, ?_⟩
+      rw [← intervalIntegral.integral_add_adjacent_intervals I1 I2, E1, E2, hc]
+      ring
+
 end Splipy
